@@ -6,6 +6,9 @@ Class models (JSON) carry 2..4 int fields, each declared through one of the docu
                   Annotated[int, KeyPath(path, all=, dump=)]  + Meta.json_key_to_field ('__all__') + key transforms
   v1 engine:      plain | Alias(*all, skip=) | Alias(load=, dump=, skip=) | AliasPath(*paths, skip=) |
                   AliasPath(load=) | AliasPath(dump=)  (default-value or Annotated form)
+  spelling:       annotations as objects | module with `from __future__ import annotations` | individually quoted
+                  annotations (all / some fields); `Annotated` by any of its names  (`gen_spelling`; the reference
+                  does not look at it: how an annotation is written never changes which key reaches the field)
                   + Meta.v1_field_to_alias ('__load__' / '__dump__') + v1_key_case + key_transform_with_dump
 Three judges per class:
   oracle   an independent reference written from docs/common_use_cases/{custom_key_mappings,nested_key_paths,
@@ -201,7 +204,39 @@ def gen_class(rng, engine):
             cm['meta']['field_to_alias'] = {'load': rng.choice([None, True, False]), 'dump': rng.choice([None, True, False]),
                                             'entries': ent}
     cm['first_op'] = rng.choice(['load', 'dump'])
+    cm['spelling'] = gen_spelling(cm)
     return cm
+
+
+ANNOTATED_NAMES = ['Annotated', 'Annotated', 'Annotated', 'Annotated', '_t.Annotated', '_te.Annotated']
+
+
+def gen_spelling(cm):
+    """How the annotations of the class are *written* — a dimension that never changes which key reaches which field:
+      module    None | 'future'  the module starts with `from __future__ import annotations` (PEP 563: every annotation of
+                                 the class is stored as a string and resolved by the library)
+      quoted    names of the fields whose annotation is written as a quoted string (a forward reference) by hand
+      annotated the name under which `Annotated` is referred to (typing / typing_extensions, plain or qualified)
+    The mapping of a field is given inside `Annotated[...]` (forms ann_key / ann_path / v1 ann=True) or as its default,
+    as drawn by gen_class; all combinations occur.  The draw is a deterministic function of the class model (seeded by
+    its text, not by the case stream), so the (class, document) stream of a seed is the one it was before this
+    dimension existed — only the spelling of some classes differs — and a replay regenerates it."""
+    import random
+    r = random.Random('spelling|' + json.dumps(cm, sort_keys=True, ensure_ascii=True))
+    names = [f['name'] for f in cm['fields']]
+    x = r.random()
+    sp = {'module': None, 'quoted': [], 'annotated': r.choice(ANNOTATED_NAMES)}
+    if x < 0.5:
+        pass
+    elif x < 0.76:
+        sp['module'] = 'future'
+        if r.random() < 0.2:                                   # a quoted annotation under the future import: a string in a string
+            sp['quoted'] = [n for n in names if r.random() < 0.5]
+    elif x < 0.9:
+        sp['quoted'] = names
+    else:
+        sp['quoted'] = [n for n in names if r.random() < 0.5] or names[:1]
+    return sp
 
 
 # ------------------------------------------------------------------ class model -> source
@@ -246,6 +281,8 @@ def meta_items(cm, mappings=True):
 def render_class(cm, cname, plain=False):
     """`plain=True`: an ordinary @dataclass without base class and Meta (a nested class that takes its configuration
     from the class that encloses it)"""
+    sp = cm.get('spelling') or {}
+    A = sp.get('annotated') or 'Annotated'
     if plain:
         L = ['@dataclass', f'class {cname}:']
     else:
@@ -271,7 +308,7 @@ def render_class(cm, cname, plain=False):
             k = repr(ks[0]) if f['keys_as'] == 'str' else repr(list(ks)) if f['keys_as'] == 'list' else repr(tuple(ks))
             rhs = f'json_field({", ".join([k] + kw("all", "dump") + dflt)})'
         elif form == 'ann_key':
-            ann = f'Annotated[int, json_key({", ".join([repr(k) for k in f["keys"]] + kw("all", "dump"))})]'
+            ann = f'{A}[int, json_key({", ".join([repr(k) for k in f["keys"]] + kw("all", "dump"))})]'
             rhs = repr(d) if d is not None else None
         elif form == 'meta_key':
             jk = f'json_key({", ".join([repr(k) for k in f["keys"]] + kw("all", "dump"))})'
@@ -279,7 +316,7 @@ def render_class(cm, cname, plain=False):
         elif form == 'path_field':
             rhs = f'path_field({", ".join([_path_src(f["path"])] + kw("all", "dump") + dflt)})'
         elif form == 'ann_path':
-            ann = f'Annotated[int, KeyPath({", ".join([_path_src(f["path"])] + kw("all", "dump"))})]'
+            ann = f'{A}[int, KeyPath({", ".join([_path_src(f["path"])] + kw("all", "dump"))})]'
             rhs = repr(d) if d is not None else None
         else:
             skip = ['skip=True'] if f.get('skip') else []
@@ -302,10 +339,12 @@ def render_class(cm, cname, plain=False):
                     a = ['dump=' + (ps[0] if f['paths'][0]['style'] == 'text' else '(' + ps[0] + ',)')]
                 call = 'AliasPath(' + ', '.join(a + skip)
             if f['ann']:
-                ann = f'Annotated[int, {call})]'
+                ann = f'{A}[int, {call})]'
                 rhs = repr(d) if d is not None else None
             else:
                 rhs = call + (', ' if (dflt and not call.endswith('(')) else '') + ', '.join(dflt) + ')'
+        if f['name'] in sp.get('quoted', ()):
+            ann = repr(ann)                 # the annotation written as a string (resolved by the library)
         L.append(f'    {f["name"]}: {ann}' + (f' = {rhs}' if rhs is not None else ''))
     return '\n'.join(L) + '\n'
 
@@ -314,6 +353,40 @@ SRC_EXTRA = '''
 from typing import Annotated
 from dataclass_wizard.v1 import Alias, AliasPath
 '''
+
+
+class PostponedModule:
+    """The same registered scratch module as `model.Built`, but its source starts with
+    `from __future__ import annotations`, so every annotation in it is stored as a string.  (`model.Built` compiles with
+    dont_inherit=True and no future statement; the statement has to be the first one of the module, hence a separate
+    builder rather than a piece of `extra_src`.)"""
+
+    def __init__(self, src):
+        import sys
+        import types
+        self.source = 'from __future__ import annotations\n' + model.PRELUDE + '\n' + src
+        self.modname = model.fresh('dwv_mod_')
+        self.mod = types.ModuleType(self.modname)
+        sys.modules[self.modname] = self.mod
+        try:
+            exec(compile(self.source, f'<{self.modname}>', 'exec', dont_inherit=True), self.mod.__dict__)
+        except Exception:
+            self.close()
+            raise
+
+    def get(self, name):
+        return getattr(self.mod, name)
+
+    def close(self):
+        import sys
+        sys.modules.pop(self.modname, None)
+
+
+def build_module(cm, src):
+    """the module holding the rendered classes, written the way the class model's spelling says"""
+    if (cm.get('spelling') or {}).get('module') == 'future':
+        return PostponedModule(SRC_EXTRA + src)
+    return model.Built(T('any'), extra_src=SRC_EXTRA + src)
 
 # ------------------------------------------------------------------ the reference (documentation semantics)
 
@@ -839,7 +912,7 @@ def run(ctx: C.Ctx, rng=None):
 def build(cm):
     cname = model.fresh('A')
     src = render_class(cm, cname)
-    built = model.Built(T('any'), extra_src=SRC_EXTRA + src)
+    built = build_module(cm, src)
     return built, built.get(cname), src
 
 
